@@ -77,14 +77,26 @@ def lean_prepare(prop):
         return False, info
     if has_props:
         src = strip_lean_comments(open(props_file).read())
-        names = re.findall(r'^\s*theorem\s+([\w\.]+)', src, flags=re.M)
-        ns = re.search(r'^namespace\s+([\w\.]+)', src, flags=re.M)
-        prefix = (ns.group(1) + '.') if ns else ''
+        # fully qualified names of the theorems of the file (namespaces may be opened and closed)
+        names, stack = [], []
+        for line in src.splitlines():
+            m = re.match(r'^namespace\s+([\w\.]+)', line)
+            if m:
+                stack.append(m.group(1))
+                continue
+            m = re.match(r'^end\s+([\w\.]+)\s*$', line)
+            if m and stack and stack[-1] == m.group(1):
+                stack.pop()
+                continue
+            m = re.match(r'^\s*theorem\s+([\w\.]+)', line)
+            if m:
+                names.append('.'.join(stack + [m.group(1)]))
+        prefix = ''
         audit = os.path.join(scratch(), 'audit_%s.lean' % prop)
         with open(audit, 'w') as f:
             f.write('import Sx.Props.%s\n' % prop)
             for n in names:
-                f.write('#print axioms %s%s\n' % (prefix, n))
+                f.write('#print axioms %s\n' % n)
         r = sh(['lake', 'env', 'lean', audit], cwd=LEAN)
         out = r.stdout + r.stderr
         if r.returncode != 0:
@@ -451,8 +463,48 @@ def main():
         divs = props.CHECKS[prop](run)
     return finish(run, lean_ok, lean_info, divs, getattr(run, 'by_hdr', {}), **props.LEVEL.get(prop, {}))
 
+def replay_tool(path):
+    """replay for C20: every line of the file is an argument string for debug_registers; the real
+    parser and main() (ASan/UBSan) and the Lean model are run on it"""
+    d = scratch()
+    H = os.path.join(ROOT, 'harness')
+    main_c = os.path.join(REPO, 'debug_registers', 'main.c')
+    san = ['-std=gnu99', '-O1', '-g', '-fsanitize=address,undefined', '-fno-sanitize-recover=all', '-w']
+    for c in (['gcc'] + san + ['-Dmain=tool_main', '-c', main_c, '-o', os.path.join(d, 'toolmain.o')],
+              ['gcc'] + san + [os.path.join(H, 'toolh.c'), os.path.join(d, 'toolmain.o'), '-o', os.path.join(d, 'toolh')]):
+        r = sh(c)
+        if r.returncode != 0:
+            print(r.stderr[-400:])
+            return 2
+    sh([sys.executable, os.path.join(ROOT, 'gen', 'extract.py'), '--repo', REPO])
+    sh(['lake', 'build', 'sxmodel'], cwd=LEAN)
+    args = [l.rstrip('\n') for l in open(path) if not l.startswith('#')]
+    if os.path.exists(path + '.json'):
+        try:
+            a = json.load(open(path + '.json')).get('argument')
+            if a is not None:
+                args.append(a)
+        except Exception:
+            pass
+    for t in args:
+        hx = t.encode('latin-1').hex() or '-'
+        inp = 'parse %s\ntool %s\n' % (hx, hx)
+        ri = sh([os.path.join(d, 'toolh')], input=inp, env=dict(os.environ, ASAN_OPTIONS='detect_leaks=0'))
+        rm = sh([SXMODEL], input=inp)
+        print('argument %r' % t[:100])
+        for l in ri.stdout.splitlines():
+            print('  impl : ' + l[:200])
+        if ri.returncode != 0:
+            print('  impl aborted: ' + (ri.stderr.strip().splitlines() or ['?'])[0][:200])
+        for l in rm.stdout.splitlines():
+            print('  model: ' + l[:200])
+    return 0
+
 def replay(path):
     """re-run a replay script on a fresh harness build and print both traces"""
+    head = open(path).read(200)
+    if path.endswith('.args') or head.startswith('# tool'):
+        return replay_tool(path)
     binary, err = build_harness('cache')
     if binary is None:
         print(err)
@@ -462,6 +514,7 @@ def replay(path):
         text = '# script r1 replay\n' + text
     scripts = split_scripts(text)
     impl = run_impl(binary, scripts)
+    sh([sys.executable, os.path.join(ROOT, 'gen', 'extract.py'), '--repo', REPO])
     sh(['lake', 'build', 'sxmodel'], cwd=LEAN)
     model = run_model(scripts)
     for s in scripts:
